@@ -876,7 +876,15 @@ class Engine(ExprEval, NumpyModel, NumpyFuncs):
         m = getattr(self, "s_" + type(stmt).__name__, None)
         if m is None:
             raise Unsupported(f"statement {type(stmt).__name__} at line {stmt.lineno}")
-        return m(st, stmt)
+        try:
+            return m(st, stmt)
+        except Unsupported as e:
+            # constructs that are definite python errors on this path are modelled as the exception they raise
+            msg = str(e)
+            for exc in ("TypeError", "AttributeError"):
+                if f"({exc} in python)" in msg and not isinstance(stmt, (ast.For, ast.While, ast.If)):
+                    return [(st, ("raise", exc, stmt))]
+            raise
 
     def _with_hoist(self, st, nodes, cont):
         res = []
